@@ -75,12 +75,148 @@ def oracle(c, out):
     return spkcommon.walk(c, out, visit)
 
 
+# ---------------------------------------------------------------- package level: table.UpdatePathAttrs vs Rewrite.Model
+PRIVATE = [64512, 65001, 65534, 4200000000, 4294967294]
+PUBLIC = [100, 200, 300, 64511, 65535, 4199999999]
+
+
+def is_private(a):
+    return 64512 <= a <= 65534 or 4200000000 <= a <= 4294967294
+
+
+def gen_x(rng):
+    gas = rng.choice([65000, 65001, 100, 4200000001, 70000])
+    members = rng.choice([[], [], [65002], [65002, 65003]])
+    ebgp = rng.random() < 0.65
+    if ebgp:
+        pas = rng.choice([100, 200, 65002, 65003, 64512])
+        las = rng.choice([gas, gas, gas, 65010, 300])
+    else:
+        pas = las = gas
+    rrc = (not ebgp) and rng.random() < 0.5
+    rs = rng.random() < 0.08
+    rm = rng.choice([0, 0, 1, 1, 2])
+    local = rng.random() < 0.25
+
+    def seg():
+        t = rng.choice([2, 2, 2, 1, 3, 4])
+        n = rng.choice([1, 1, 2, 3, 5])
+        pool = PRIVATE + PUBLIC + [gas, las, pas]
+        return (t, [rng.choice(pool) for _ in range(n)])
+    r = rng.random()
+    if r < 0.12:
+        path = None
+    elif r < 0.2:
+        path = []
+    elif r < 0.27:
+        k = rng.choice([254, 255])
+        path = [(rng.choice([2, 2, 3]), [rng.choice(PUBLIC + [gas]) for _ in range(k)])] + [seg() for _ in range(rng.choice([0, 1]))]
+    elif r < 0.35:
+        path = [(rng.choice([2, 3]), [rng.choice(PRIVATE) for _ in range(rng.choice([1, 2, 3]))])] + [seg() for _ in range(rng.choice([0, 1, 2]))]
+    else:
+        path = [seg() for _ in range(rng.choice([1, 1, 2, 3, 4]))]
+    attrs = {"origin": rng.choice([0, 1, 2]), "path": path, "nh": 0 if (local and rng.random() < 0.5) else 167772161 + rng.randrange(3),
+             "med": rng.choice([None, 0, 5]), "lp": rng.choice([None, 100, 200]),
+             "orig": rng.choice([None, None, 151587081]), "cl": rng.choice([None, None, [134744072], [134744072, 117901063]]),
+             "unk": sorted(set(rng.sample([(200, 192), (201, 128), (202, 64), (203, 0), (204, 224), (205, 160)], rng.choice([0, 0, 1, 2, 3]))))}
+    return {"g": (gas, 16843009, members), "peer": ("e" if ebgp else "i", pas, las, int(rrc), int(rs), rm), "src": (int(local), 167772161 + rng.randrange(3)), "attrs": attrs}
+
+
+def x_line(c):
+    a = c["attrs"]
+
+    def o(v):
+        return "-" if v is None else str(v)
+    path = "-" if a["path"] is None else "(" + " ".join("(" + " ".join(map(str, [t] + l)) + ")" for t, l in a["path"]) + ")"
+    cl = "-" if a["cl"] is None else "(" + " ".join(map(str, a["cl"])) + ")"
+    unk = "(unk" + "".join(" (%d %d)" % u for u in a["unk"]) + ")"
+    at = "(%d %s %d %s %s %s %s %s)" % (a["origin"], path, a["nh"], o(a["med"]), o(a["lp"]), o(a["orig"]), cl, unk)
+    g, p, s_ = c["g"], c["peer"], c["src"]
+    return "upa (g %d %d (%s)) (peer %s %d %d %d %d %d) (path %d %d %s)" % (g[0], g[1], " ".join(map(str, g[2])), p[0], p[1], p[2], p[3], p[4], p[5], s_[0], s_[1], at)
+
+
+def parse_xattrs(n):
+    def o(v):
+        return None if v == "-" else int(v)
+    return {"origin": int(n[0]), "path": None if n[1] == "-" else [(int(sg[0]), [int(x) for x in sg[1:]]) for sg in n[1]], "nh": int(n[2]),
+            "med": o(n[3]), "lp": o(n[4]), "orig": o(n[5]), "cl": None if n[6] == "-" else [int(x) for x in n[6]],
+            "unk": sorted((int(u[0]), int(u[1])) for u in n[7][1:])}
+
+
+def x_oracle(c, out):
+    """The rules of the property text on one (target peer, stored route) pair."""
+    if not out.startswith("ok "):
+        return ("stored-route-altered" if out.startswith("stored-route-altered") else "harness-error", out[:300])
+    items = simlib.parse_sx(out[3:])
+    cp, stored = parse_xattrs(items[0]), parse_xattrs(items[1])
+    a = c["attrs"]
+    typ, pas, las, rrc, rs, rm = c["peer"]
+    local = c["src"][0] == 1
+    gas, gid, members = c["g"]
+    if rs:
+        return None if cp == stored else ("rs-client-changed", "route-server client copy differs from the stored route: %s" % out[:200])
+    flat = lambda p: [x for _, l in (p or []) for x in l]
+    if any(not (f & 64) for _, f in cp["unk"]):
+        return ("unknown-non-transitive-kept", out[:200])
+    if sorted(u for u in a["unk"] if u[1] & 64) != cp["unk"]:
+        return ("unknown-transitive-lost", out[:200])
+    if typ == "e":
+        member = pas in members
+        base = a["path"] or []
+        if rm == 1:
+            base = [(t, [x for x in l if not is_private(x)]) for t, l in base]
+        elif rm == 2:
+            base = [(t, [las if is_private(x) else x for x in l]) for t, l in base]
+        if not member:
+            base = [(t, l) for t, l in base if t in (1, 2)]
+        want = [las] + flat(base)
+        if flat(cp["path"]) != want:
+            return ("ebgp-as-path", "AS_PATH of the copy %s; the local AS once in front of the cleaned stored path is %s" % (cp["path"], want))
+        if not cp["path"] or cp["path"][0][0] != (3 if member else 2):
+            return ("ebgp-as-path-segment", "first segment %s" % (cp["path"][:1],))
+        if not member and any(t in (3, 4) for t, _ in cp["path"]):
+            return ("confed-segment-leaked", str(cp["path"]))
+        if any(len(l) == 0 or len(l) > 255 for _, l in cp["path"]):
+            return ("segment-size", str([len(l) for _, l in cp["path"]]))
+        if (not local or a["nh"] == 0) and cp["nh"] != 167772414:
+            return ("ebgp-next-hop", str(cp["nh"]))
+        if not local and cp["med"] is not None:
+            return ("ebgp-foreign-med", str(cp["med"]))
+        if cp["orig"] is not None or cp["cl"] is not None:
+            return ("ebgp-reflection-attributes", out[:200])
+    else:
+        if (cp["path"] or []) != (a["path"] or []):
+            return ("ibgp-as-path", "%s vs stored %s" % (cp["path"], a["path"]))
+        if not local and cp["nh"] != a["nh"]:
+            return ("ibgp-next-hop", str(cp["nh"]))
+        if cp["lp"] != (a["lp"] if a["lp"] is not None else 100):
+            return ("ibgp-local-pref", str(cp["lp"]))
+        if rrc:
+            worig = a["orig"] if a["orig"] is not None else (gid if local else c["src"][1])
+            if cp["orig"] != worig or cp["cl"] != [gid] + (a["cl"] or []):
+                return ("rr-reflection-attributes", out[:200])
+        elif cp["orig"] is not None or cp["cl"] is not None:
+            return ("ibgp-reflection-attributes", out[:200])
+    if cp["origin"] != a["origin"]:
+        return ("origin-changed", out[:200])
+    return None
+
+
+def run_x(ctx, proof):
+    from vf import core
+    n = ctx.scale(6000, 200000)
+    cases = [gen_x(ctx.rng) for _ in range(n)]
+    return core.differential(ctx, "c09", proof, cases, x_line, x_oracle, nontrivial=lambda c: c["attrs"]["path"] is not None and len(c["attrs"]["path"]) >= 1,
+                             more_cases=lambda: [gen_x(ctx.rng) for _ in range(n)],
+                             correspondence_name="table.UpdatePathAttrs (PrependAsn/RemovePrivateAS/removeConfedAs) vs Rewrite.Model.update_path_attrs"), cases
+
+
 def run(ctx):
     return spkcommon.run(ctx, "C09", oracle, "UpdatePathAttrs/filterpath/filterPathFromSourcePeer/handleUpdate vs Speaker.Model export/filter0/rejected",
                          ["AS_PATH is one AS_SEQUENCE of at most a few members; confederation, remove-private-as, replace-peer-as, "
                           "allow-own-as > 0, route-server clients and unknown non-transitive attributes are outside the model",
                           "cluster-id = router-id (the default)"],
-                         fields=("view", "rib", "adjin"))
+                         fields=("view", "rib", "adjin"), extra=run_x)
 
 
 def replay(ctx, path):
